@@ -232,6 +232,8 @@ func symText(max int) []byte {
 }
 
 func checkDiff(x, y []byte) {
+	rt.Observe("old", x)
+	rt.Observe("new", y)
 	out := Diff("a", x, "b", y)
 	same := len(x) == len(y)
 	if same {
@@ -312,3 +314,7 @@ func VerifC08Anchored() {
 	y = append(y, symLines(s)...)
 	checkDiff(x, y)
 }
+
+// VerifC08AnchoredShort: the same template with short runs of common lines
+// (fewer than 2*3, where two changes share one hunk or barely do not).
+func VerifC08AnchoredShort() { VerifC08Anchored() }
